@@ -106,6 +106,7 @@ def link_modes(tier):
         {'name': 'sym', 'args': ['-ldflags=-s=false'], 'what': 'ELF symbol table kept (the flag goom documents)'},
         {'name': 'pie', 'args': ['-buildmode=pie'], 'what': 'position independent executable'},
         {'name': 'ext', 'args': ['-ldflags=-linkmode=external'], 'what': 'external (cgo-style) linking: .text starts before runtime.text'},
+        {'name': 'ext-strip', 'args': ['-ldflags=-linkmode=external -s'], 'what': 'externally linked and stripped: no .symtab, but a .dynsym that must not be mistaken for it'},
     ]
     if tier == 'thorough':
         modes += [
@@ -283,6 +284,7 @@ def make_queries(desc, comp, rng, full, nmiss, sample=400):
         q += [('x:' + esc(n), 'expose') for n in pick(fn, sample // 4)]
     if not fn:     # unreadable / PIE: the file's tables are not visible to the check either; ask for what must exist
         q += [('f:' + esc(n), 'func') for n in gen_f] + [('v:' + esc(n), 'sym') for n in gen_v] + [('x:' + esc(n), 'expose') for n in gen_f[:50]]
+    q += [('v:' + esc(n), 'dynsym-name') for n in desc.get('dynsym_names', []) if n] + [('f:' + esc(n), 'dynsym-name') for n in desc.get('dynsym_names', [])[:20] if n]
     base = (fn or gen_f) + (sy or gen_v)
     generic = [n for n in fn if b'[' in n and n.startswith(PKG.encode())] or [n for n in fn if b'[' in n]
     for k in range(nmiss):
@@ -442,6 +444,8 @@ def oracle(case, q, obs, rt):
     readable = d.get('open', True) and d.get('elf', True) and d['text'] is not None and d['pcln'] not in (None, 'bad')
     if obs is None:
         return 'no observation (process died?)'
+    if obs == 'exposed-value-changed':
+        return 'a function value handed out by an earlier ExposeFunction / As no longer points at the address it was built for'
     if obs.startswith('panic') or obs in ('bad-query', 'err-with-addr'):
         return f'lookup must return an address or an error, got {obs}'
     table = case['fnames'] if kind in 'fx' else case['snames']
